@@ -45,7 +45,7 @@ Fixpoint trace (w : world) (i : Z) (tr : list (pop * pobs * list pq)) : list Z :
   | [] => []
   | (op, o, qs) :: t =>
       match check_qs i (w_p w) qs with
-      | _ :: _ as d => d
+      | (_ :: _) as d => d
       | [] =>
       match wstep w op with
       | Ok (w', outs, e) =>
@@ -99,7 +99,7 @@ Fixpoint trace (f : farm) (i : Z) (tr : list (fop * fobs * list fq)) : list Z :=
   | [] => []
   | (op, o, qs) :: t =>
       match check_qs i f qs with
-      | _ :: _ as d => d
+      | (_ :: _) as d => d
       | [] =>
       match fstep f op with
       | Ok (f', outs) =>
@@ -156,7 +156,7 @@ Fixpoint trace (s : stk) (i : Z) (tr : list (sop * sobs * list sq)) : list Z :=
   | [] => []
   | (op, o, qs) :: t =>
       match check_qs i s qs ++ check_paid i s op (so_ok o) qs with
-      | _ :: _ as d => firstn 4 d
+      | (_ :: _) as d => firstn 4 d
       | [] =>
       match sstep s op with
       | Ok (s', outs) =>
@@ -199,7 +199,7 @@ Fixpoint trace (s : lst) (i : Z) (tr : list (lop * lobs * list lq)) : list Z :=
   | [] => []
   | (op, o, qs) :: t =>
       match check_qs i s qs with
-      | _ :: _ as d => d
+      | (_ :: _) as d => d
       | [] =>
       match step s op with
       | Ok (s', outs) =>
@@ -249,7 +249,7 @@ Fixpoint trace (s : pd) (i : Z) (tr : list (pdop * pobs * list dq)) : list Z :=
   | [] => []
   | (op, o, qs) :: t =>
       match check_qs i s qs with
-      | _ :: _ as d => d
+      | (_ :: _) as d => d
       | [] =>
       match step s op with
       | Ok (s', outs) =>
